@@ -13,6 +13,9 @@ import Clem.Props.C01.ComposeGel
 import Clem.Props.C01.ComposeSched
 import Clem.Props.C01.ComposeQuality
 import Clem.Props.C01.ComposeRefl
+import Clem.Props.C01.ComposeSnap
+import Clem.Props.C01.ComposeMemory
+import Clem.Props.C01.ComposeAgents
 
 set_option linter.unusedSectionVars false
 
@@ -176,7 +179,7 @@ theorem C01_compose_retrieval (s : State α) (ts : List (TurnIn α × Oracles α
   intro o ho
   obtain ⟨s', t, hg, _, rfl⟩ := mem_outs_good w c hs ho
   rw [runTurn_t2]
-  rcases t2Of_good w c s' t.1 t.2 hg with h0 | ⟨o', qo, hh, qq, h0⟩
+  rcases t2Of_good w c s' t.1 t.2 hg with h0 | ⟨o', qo, hh, qq, mem', h0⟩
   · rw [h0]
     refine ⟨?_, ?_, ?_, ?_⟩
     · show ((0 : Nat) : Int) ≤ c.k
@@ -185,11 +188,11 @@ theorem C01_compose_retrieval (s : State α) (ts : List (TurnIn α × Oracles α
     · intro e he; cases he
     · intro _ e he; cases he
   · rw [h0]
-    have h := Clem.T2.C11_t2_retrieved (t2Cfg w c o' qo) c.tiers (withCos w.eps qo.cos) hh qq (t2K c)
+    have h := Clem.T2.C11_t2_retrieved (t2Cfg w c o' qo) c.tiers (withCos (epsAt w mem' o') qo.cos) hh qq (t2K c)
       c.residualCap (gnodes w) hk
     refine ⟨h.1, h.2.1, fun e he => ⟨(h.2.2 e he).2.1, (h.2.2 e he).2.2.1⟩, ?_⟩
     intro hsc e he
-    exact Clem.T2.C11_t2_scope_agent (t2Cfg w c o' qo) c.tiers (withCos w.eps qo.cos) hh qq (t2K c)
+    exact Clem.T2.C11_t2_scope_agent (t2Cfg w c o' qo) c.tiers (withCos (epsAt w mem' o') qo.cos) hh qq (t2K c)
       c.residualCap (gnodes w) w.agent hsc rfl e he
 
 /-- a history started with an empty orchestrator cache starts in a good state -/
@@ -296,6 +299,16 @@ instance : Clem.Py.NumGel Int where
   le a b := decide (a ≤ b)
   eq a b := decide (a = b)
 
+/-- toy snapshot arithmetic: every integer is finite, `round(x, 6)` is the identity -/
+def intOps : Clem.Snap.WOps Int :=
+  { lt := fun a b => decide (a < b), fin := fun _ => true, round := fun x => x, abs := fun a => (a.natAbs : Int),
+    zero := 0, one := 1, negOne := -1, isZero := fun x => decide (x = 0) }
+
+def intCv : Clem.Snap.Cv Int :=
+  { pyStr := fun | .str s => s | _ => [63]
+    pyFloat := fun | .num x => some x | .int n => some n | _ => none
+    pyInt := fun | .int n => some n | _ => none }
+
 def apple : Str := [97, 112, 112, 108, 101]
 def n1 : Str := [110, 49]
 def agentA : Str := [65]
@@ -328,14 +341,26 @@ def cfg : Cfg Int :=
               mmrK := none, failFuse := false, failMmr1 := false, failMmr2 := false },
     refl := { allow := true, backend := Clem.Refl.sRule, topk := 2, limit := 4, embed := false, opsCap := some 1, wallMs := none,
               fxEnabled := false, fxPathOk := false },
-    sched := some ⟨some 1000, some 9, some 9, some 9, some 9, some 1000⟩ }
+    sched := some ⟨some 1000, some 9, some 9, some 9, some 9, some 1000⟩,
+    wops := intOps, cv := intCv, snapB := ⟨-10, 10, 0⟩ }
 
 def hookDelta : Clem.T4.Delta Int := ⟨[110], [110, 58, 110, 49], [119], 2, none, none⟩
 
-def turn (i : Int) : TurnIn Int × Oracles Int :=
-  (⟨apple, i, false, [], true, [], [hookDelta], 0⟩, ⟨[⟨apple ++ [32] ++ apple, [9, 7], [], []⟩], 0, [], []⟩)
+/-- the oracle's description of the written reflection entries (id / cluster are stand-ins for the hashes) -/
+def memOracle (mem : List Clem.Refl.Written) : List (Clem.T2.Ep Int) :=
+  mem.map (fun wr => { id := 114 :: wr.turn, owner := .str sAgentLit, hasVec := wr.vec, cos := 0, ts := .missing,
+                       quarter := 0, cluster := [99], importance := 0, text := wr.text, toks := [] })
 
-def hist : Hist Int := runTurns world cfg ⟨[], .num 0, [], [], [], none, 0⟩ [turn 1, turn 2]
+def turnM (i : Int) (mem : List Clem.Refl.Written) : TurnIn Int × Oracles Int :=
+  (⟨apple, i, false, [], true, [], [hookDelta], 0, none⟩,
+   ⟨[⟨apple ++ [32] ++ apple, [9, 7, 8], [], []⟩], 0, [], [], memOracle mem⟩)
+
+def turn (i : Int) : TurnIn Int × Oracles Int := turnM i []
+
+def s0 : State Int := ⟨[], .num 0, [], [], [], none, 0, false, none, []⟩
+
+/-- the second turn's oracle describes the entry the first turn wrote -/
+def hist : Hist Int := runTurns world cfg s0 [turn 1, turnM 2 (runTurns world cfg s0 [turn 1]).state.mem]
 
 end Example
 
@@ -360,6 +385,143 @@ theorem C01_compose_nonvacuous :
     Example.hist.outs.map (fun o => (o.refl.called, o.refl.written.length, o.refl.log.map (·.summaryLen))) =
       [(true, 1, some 4), (true, 1, some 4)] ∧
     Example.hist.state.memN = 2 := by
+  decide
+
+/-! ## restart: the law holds on an example, and every proviso of `C01_compose_restart` is needed -/
+
+namespace Example
+
+/-- the fresh process state -/
+def sF : State Int := ⟨[], .num 0, [], [], [], none, 0, false, none, []⟩
+
+/-- caches off, reflection not allowed (GEL stays ON: integer weights survive the toy `round`) -/
+def cfgR : Cfg Int :=
+  { cfg with t1 := { t1cfg with cacheOn := false }, orchCacheOn := false, refl := { cfg.refl with allow := false } }
+
+def oneGo (c : Cfg Int) : Hist Int := runTurns world c (bootOf c sF none) [turn 1, turn 2]
+def twoProcs (c : Cfg Int) : Hist Int := restartHist world c (bootOf c sF none) sF 1 [turn 1, turn 2]
+
+/-- coarse `round(x, 6)`: multiples of ten -/
+def cfgLossy : Cfg Int := { cfgR with wops := { intOps with round := fun x => x / 10 * 10 } }
+
+end Example
+
+/-- `str(int)` reads back through `int(str)` (the version round trip `hv` of `C01_compose_restart`) -/
+theorem C01_compose_version_roundtrip : ∀ n : Fin 120, verOfStr (decStr (n.val : Int)) = .num n.val := by
+  decide
+
+set_option maxRecDepth 100000 in
+/-- the restart law on the example (caches off, no reflection): two processes = one process, snapshot written by
+the first turn, two version bumps, accumulated weight, the GEL edge carried through the snapshot -/
+theorem C01_compose_restart_nonvacuous :
+    (Example.twoProcs Example.cfgR).outs.map (·.t1.cacheHits) = (Example.oneGo Example.cfgR).outs.map (·.t1.cacheHits) ∧
+    (Example.twoProcs Example.cfgR).outs.map (fun o => o.storeCalls.map (·.map (·.delta))) =
+      (Example.oneGo Example.cfgR).outs.map (fun o => o.storeCalls.map (·.map (·.delta))) ∧
+    (Example.twoProcs Example.cfgR).outs.map (fun o => o.apply.map (·.version)) =
+      (Example.oneGo Example.cfgR).outs.map (fun o => o.apply.map (·.version)) ∧
+    (Example.twoProcs Example.cfgR).outs.map (fun o => o.gelObs.map (·.pairsUpdated)) =
+      (Example.oneGo Example.cfgR).outs.map (fun o => o.gelObs.map (·.pairsUpdated)) ∧
+    (Example.twoProcs Example.cfgR).state.w = (Example.oneGo Example.cfgR).state.w ∧
+    (Example.twoProcs Example.cfgR).state.ver = (Example.oneGo Example.cfgR).state.ver ∧
+    (Example.twoProcs Example.cfgR).state.gel = (Example.oneGo Example.cfgR).state.gel ∧
+    (Example.twoProcs Example.cfgR).state.memN = (Example.oneGo Example.cfgR).state.memN ∧
+    (Example.oneGo Example.cfgR).outs.map (·.snapBody.isSome) = [true, true] ∧
+    (Example.oneGo Example.cfgR).state.ver = .num 2 ∧
+    (Example.oneGo Example.cfgR).state.w.map (·.2) = [4] ∧
+    (Clem.Gel.edgesOf (Example.twoProcs Example.cfgR).state.gel).map (·.w) = [4] := by
+  decide
+
+set_option maxRecDepth 100000 in
+/-- **the T1 process cache is not in the snapshot**: with it on, the second process misses where the single process
+hits (`cache_hits` of the t1 record differ) -/
+theorem C01_compose_restart_needs_t1_cache_off :
+    (Example.twoProcs { Example.cfgR with t1 := Example.t1cfg }).outs.map (·.t1.cacheHits) = [0, 0] ∧
+    (Example.oneGo { Example.cfgR with t1 := Example.t1cfg }).outs.map (·.t1.cacheHits) = [0, 1] := by
+  decide
+
+set_option maxRecDepth 100000 in
+/-- **the orchestrator's T2 cache is not in the snapshot**: with it on (no bust), the single process ends with two
+entries, the restarted one with one -/
+theorem C01_compose_restart_needs_orch_cache_off :
+    (Example.twoProcs { Example.cfgR with orchCacheOn := true, bust := false }).state.orch.length = 1 ∧
+    (Example.oneGo { Example.cfgR with orchCacheOn := true, bust := false }).state.orch.length = 2 := by
+  decide
+
+set_option maxRecDepth 100000 in
+/-- **the memory index is not in the snapshot**: with reflection allowed, the episodes written by the first process
+are gone after the restart -/
+theorem C01_compose_restart_needs_no_reflection :
+    (Example.twoProcs { Example.cfgR with refl := Example.cfg.refl }).state.memN = 1 ∧
+    (Example.oneGo { Example.cfgR with refl := Example.cfg.refl }).state.memN = 2 := by
+  decide
+
+set_option maxRecDepth 100000 in
+/-- **GEL weights are rounded on write**: with a `round` that is not the identity on the stored weights, the edge the
+second process continues from is not the edge the first one had (`hg` fails) -/
+theorem C01_compose_restart_needs_gel_exact :
+    (Clem.Gel.edgesOf (Example.twoProcs Example.cfgLossy).state.gel).map (·.w) = [2] ∧
+    (Clem.Gel.edgesOf (Example.oneGo Example.cfgLossy).state.gel).map (·.w) = [4] := by
+  decide
+
+/-! ## memory growth: the entry the first turn wrote is retrieved by the second -/
+
+namespace Example
+
+/-- `owner_scope = any`, the writer embeds; agent "A" -/
+def cfgM : Cfg Int := { cfg with scope := 0, k := 3, refl := { cfg.refl with embed := true } }
+/-- the same under `owner_scope = agent` (the agent's id is "A", not the literal "agent") -/
+def cfgMA : Cfg Int := { cfgM with scope := 1 }
+
+def histM (c : Cfg Int) : Hist Int :=
+  runTurns world c s0 [turn 1, turnM 2 (runTurns world c s0 [turn 1]).state.mem]
+
+end Example
+
+set_option maxRecDepth 100000 in
+/-- under `any` the second turn's hits contain the reflection entry of turn 1 (the stand-in id `r1`, owner
+"agent"), the first turn's do not; under `agent` (agent id "A") it stays invisible; no oracle miss either way -/
+theorem C01_compose_memory_nonvacuous :
+    (Example.histM Example.cfgM).outs.map (fun o => o.t2.retrieved.map (·.id)) =
+      [[[101, 49], [101, 50]], [[101, 49], [101, 50], [114, 49]]] ∧
+    (Example.histM Example.cfgM).outs.map (·.oracleMiss) = [false, false] ∧
+    (Example.histM Example.cfgM).state.mem.map (·.vec) = [true, true] ∧
+    (Example.histM Example.cfgMA).outs.map (fun o => o.t2.retrieved.map (·.id)) =
+      [[[101, 49], [101, 50]], [[101, 49], [101, 50]]] := by
+  decide
+
+/-! ## two agents on one state -/
+
+namespace Example
+
+def agentB : Str := [66]
+
+/-- one episode of each agent -/
+def worldAB : World Int :=
+  { world with eps := [{ id := [101, 49], owner := .str agentA, hasVec := true, cos := 0, ts := .missing, quarter := 0,
+                         cluster := [99], importance := 0, text := apple, toks := [] },
+                       { id := [101, 50], owner := .str agentB, hasVec := true, cos := 0, ts := .missing, quarter := 0,
+                         cluster := [99], importance := 0, text := apple, toks := [] }] }
+
+/-- `owner_scope = agent`; T4 off, so the version — half of the orchestrator cache key — never moves -/
+def cfgAB (orchOn : Bool) : Cfg Int :=
+  { cfg with scope := 1, t4Enabled := false, orchCacheOn := orchOn, bust := false,
+             refl := { cfg.refl with allow := false }, gel := { cfg.gel with enabled := false } }
+
+def turnOf (i : Int) (a : Str) : TurnIn Int × Oracles Int :=
+  (⟨apple, i, false, [], true, [], [hookDelta], 0, some a⟩, ⟨[⟨apple ++ [32] ++ apple, [9, 7], [], []⟩], 0, [], [], []⟩)
+
+def histAB (orchOn : Bool) : Hist Int := runTurnsMA worldAB (cfgAB orchOn) s0 [turnOf 1 agentA, turnOf 2 agentB]
+
+end Example
+
+set_option maxRecDepth 100000 in
+/-- with the orchestrator cache off each agent retrieves its own episode; with it ON (key = version + text) agent B
+is served agent A's hit — C05's recorded finding `turn:agent`, the reason that cache stays off in multi-agent
+histories -/
+theorem C01_compose_agents_needs_orch_cache_off :
+    (Example.histAB false).outs.map (fun o => o.t2.retrieved.map (·.id)) = [[[101, 49]], [[101, 50]]] ∧
+    (Example.histAB true).outs.map (fun o => o.t2.retrieved.map (·.id)) = [[[101, 49]], [[101, 49]]] ∧
+    (Example.histAB true).outs.map (·.orchHit) = [false, true] := by
   decide
 
 end Clem.Compose
